@@ -110,6 +110,9 @@ func VH_math(which int, nargs int) {
 		a, aok, aopen := numericArg(args[0])
 		b, bok, bopen := numericArg(args[1])
 		if aopen || bopen {
+			// a string argument: the statement calls it a wrong type, the code coerces numeric
+			// strings; either way a call that succeeds yields a number
+			verifAssert("math-result-is-a-number", failed || hvIsNum(got))
 			return
 		}
 		if !aok || !bok {
@@ -139,6 +142,7 @@ func VH_math(which int, nargs int) {
 	}
 	x, ok, open := numericArg(args[0])
 	if open {
+		verifAssert("math-result-is-a-number", failed || hvIsNum(got))
 		return
 	}
 	if !ok {
@@ -180,6 +184,8 @@ func specMinMax(isMin bool, args []interface{}, nargs int, got interface{}, fail
 	for i := 0; i < len(list); i++ {
 		x, ok, open := numericArg(list[i])
 		if open {
+			// a string among the arguments (see VH_math): if the call succeeds its result is a number
+			verifAssert("minmax-result-is-a-number", failed || hvIsNum(got))
 			return
 		}
 		if !ok {
